@@ -40,7 +40,7 @@ def r1_agreement(rep, src, M):
     substs = []
     worlds, fdump = M.dump_worlds(substitutions=substs)
     alpha = M.alpha
-    dom = M.domain('')
+    dom = M.domain('', spaces=True)      # "printable / UTF-8 values": a no-break space between two words is text of the value
     langs = {
         'key': M.pat(KEY_RE), 'ws1': M.pat(WS), 'ws2': M.pat(WS), 'wsp': M.pat(r'[ \t]+'),
         'first': M.pat(FIRST_TRIMMED).intersect(dom), 'cont': M.pat(CONT).intersect(dom),
